@@ -22,6 +22,7 @@ pub struct Scenario {
 }
 static HEADROOM: Headroom = Headroom::new();
 static ARRIVAL_HEADROOM: Headroom = Headroom::new();
+static SPEED_HEADROOM: Headroom = Headroom::new();
 
 pub fn build(p: &Profile) -> Result<MotionProfile, String> {
     catch(|| MotionProfile::new(State::new_raw(p.start[0], p.start[1], p.start[2]), State::new_raw(p.end[0], p.end[1], p.end[2]), Quantity::new(p.max_vel, MILLIMETER_PER_SECOND), Quantity::new(p.max_acc, MILLIMETER_PER_SECOND_SQUARED)))
@@ -263,6 +264,7 @@ pub fn check07(s: &Scenario) -> CheckResult {
         // resolution, C18's "1 ns of truncation"), which shifts a ramp by up to |A|*1 ns in speed per boundary; for
         // moves of well under a millisecond that term dominates the f32 one (same term as in the arrival clause below)
         let speed_tol = 4.0 * rv.e + (a_s.abs() as f64) * 3e-9 + 16.0 * U * (vmax + (a_s.abs() as f64) * (t3 as f64 / 1e9));
+        SPEED_HEADROOM.observe(((vel.abs() as f64) - vmax).max(0.0) / speed_tol);
         ensure!((vel.abs() as f64) <= vmax + speed_tol, "C07/speed-limit", "t={}: |velocity| {:e} exceeds the largest of max_vel and the start/end speeds {:e} by more than the rounding tolerance {:e}", t, vel.abs(), vmax, speed_tol);
         if t == 0 {
             ensure!(same_f32(vel, p.start[1]) && same_f32(pos, p.start[0]), "C07/start", "at t=0 velocity {:e} position {:e}, start state {:?}", vel, pos, p.start);
@@ -389,7 +391,7 @@ impl Property for C06 {
         scenario_strategy()
     }
     fn cases(tier: Tier) -> u32 {
-        tier.pick(100_000, 400_000)
+        tier.pick(100_000, 1_200_000)
     }
     fn exhaustive(_tier: Tier, sink: &mut dyn FnMut(Scenario)) -> Vec<String> {
         for p in fixed_profiles() {
@@ -413,7 +415,7 @@ impl Property for C07 {
         scenario_strategy()
     }
     fn cases(tier: Tier) -> u32 {
-        tier.pick(100_000, 400_000)
+        tier.pick(100_000, 1_000_000)
     }
     fn exhaustive(_tier: Tier, sink: &mut dyn FnMut(Scenario)) -> Vec<String> {
         for p in fixed_profiles() {
@@ -428,6 +430,7 @@ impl Property for C07 {
         let mut m = std::collections::BTreeMap::new();
         m.insert("max_observed_error_over_bound".into(), serde_json::json!(HEADROOM.get()));
         m.insert("max_observed_arrival_error_over_tolerance".into(), serde_json::json!(ARRIVAL_HEADROOM.get()));
+        m.insert("max_observed_speed_excess_over_tolerance".into(), serde_json::json!(SPEED_HEADROOM.get()));
         m.insert("tolerance".into(), "closed forms: |out - reference| <= 4 x running f32 error bound; arrival: 4e + |A|*3ns*T3 + vmax*3ns + 16u(|p0|+|p1|+vmax*T3)".into());
         m
     }
